@@ -73,6 +73,11 @@ type vfC22Kind struct {
 	// its error (e.g. a validate callback that builds the identity and then
 	// refuses it). The error decides; the context must be ignored.
 	withCtx bool
+	// replacedLast: configuration history SetAuthenticate(A = accepts everyone)
+	// -> every other setter (prefix, provider, sticky, introspection, PKCE ...)
+	// -> SetAuthenticate(B = this kind). B is the configured authenticator; no
+	// earlier setter may have kept a private copy of A.
+	replacedLast bool
 }
 
 func vfC22Kinds() []vfC22Kind {
@@ -110,6 +115,20 @@ func vfC22Kinds() []vfC22Kind {
 			vfC22Kind{name: "rpc-TypeError", mk: func() error { return &RpcError{Type: "TypeError", Message: "odd"} }},
 			vfC22Kind{name: "wrapped-unavailable", mk: func() error { return fmt.Errorf("ctx: %w", NewAuthUnavailable("down")) }},
 		)
+	}
+	// configuration-order variants (authenticator replaced after all other setters)
+	n := len(ks)
+	for _, k := range ks[1:n] {
+		switch k.name {
+		case "rpc-ValueError", "unavailable", "rpc-PermissionError+ctx":
+		default:
+			if !venum.Thorough() {
+				continue
+			}
+		}
+		k2 := k
+		k2.name, k2.replacedLast = k.name+"@replaced-last", true
+		ks = append(ks, k2)
 	}
 	return ks
 }
@@ -267,7 +286,14 @@ func vfC22Build(x *venum.X, mask, proof int, prefix string, kind vfC22Kind) (*vf
 		auth = gated
 		h.SetProxyProofRequired(true)
 	}
-	h.SetAuthenticate(auth)
+	if kind.replacedLast {
+		// A: an earlier, permissive authenticator that is replaced below
+		h.SetAuthenticate(func(r *http.Request) (*AuthContext, error) {
+			return &AuthContext{Domain: "vf", Authenticated: true, Principal: "intro"}, nil
+		})
+	} else {
+		h.SetAuthenticate(auth)
+	}
 	if e.pkce {
 		if err := h.SetOAuthResourceMetadata(&OAuthResourceMetadata{
 			Resource:             "https://api.example.com" + prefix,
@@ -283,6 +309,9 @@ func vfC22Build(x *venum.X, mask, proof int, prefix string, kind vfC22Kind) (*vf
 		h.pkce.oidcDiscovery = func() (string, string, bool) {
 			return "https://idp.invalid/authorize", "https://idp.invalid/token", true
 		}
+	}
+	if kind.replacedLast {
+		h.SetAuthenticate(auth) // B replaces A after every other setter has run
 	}
 	return e, nil
 }
@@ -659,6 +688,9 @@ func TestVerif_C22(t *testing.T) {
 			authCalls: e.c.authCalls - before.authCalls,
 		}
 		sig := "C22:route:" + rt.name
+		if kind.replacedLast {
+			sig = "C22:reconfigured:route:" + rt.name
+		}
 		if pan != nil {
 			x.Failf(sig+":panic", "panic escaped ServeHTTP: %v", pan)
 			return
@@ -706,7 +738,7 @@ func TestVerif_C22(t *testing.T) {
 	var histKinds []vfC22Kind
 	for _, k := range kinds {
 		switch k.name {
-		case "rpc-ValueError", "unavailable", "plain-error", "rpc-PermissionError+ctx":
+		case "rpc-ValueError", "unavailable", "plain-error", "rpc-PermissionError+ctx", "rpc-ValueError@replaced-last":
 			histKinds = append(histKinds, k)
 		case "rpc-PermissionError", "failure-missing_credential":
 			if venum.Thorough() {
